@@ -31,13 +31,23 @@ def load_baseline():
 
 def _strip(elems, n):
     """node behind implicit wrappers"""
-    while n is not None and n['k'] in ('ImplicitCastExpr', 'MaterializeTemporaryExpr', 'ExprWithCleanups', 'ParenExpr',
-                                       'CXXBindTemporaryExpr', 'ConstantExpr'):
-        c = n.get('ch', [])
+    while n is not None and (n['k'] in ('ImplicitCastExpr', 'MaterializeTemporaryExpr', 'ExprWithCleanups', 'ParenExpr',
+                                        'CXXBindTemporaryExpr', 'ConstantExpr') or
+                             (n['k'] == 'CXXConstructExpr' and len(n.get('args', [])) == 1 and n.get('copy_like', True)
+                              and _same_type_copy(elems, n))):
+        c = n.get('ch', []) or n.get('args', [])
         if not c:
             return n
         n = elems[c[0]] if isinstance(c[0], int) else c[0]
     return n
+
+
+def _same_type_copy(elems, n):
+    a = n['args'][0]
+    a = elems[a] if isinstance(a, int) else a
+    ta = (a.get('ty') or '').replace('const ', '').replace('&', '').strip()
+    tn = (n.get('ty') or n.get('ctor') or '').replace('const ', '').replace('&', '').strip()
+    return bool(ta) and (ta == tn or ta == (n.get('ctor') or ''))
 
 
 def _ids_in(n):
@@ -296,7 +306,15 @@ class Inliner:
             by_ref = '&' in pty or pty.startswith('const ') or pty.rstrip().endswith('const')
             is_ref = '&' in pty
             opath = _object_path(elems, elems[str(a)]) if is_ref else None
-            if an is not None and an.get('k') == 'DeclRefExpr' and an.get('dk') in ('var', 'parm', 'binding') and by_ref:
+            unwritten = None
+            if an is not None and an.get('k') == 'DeclRefExpr' and an.get('dk') in ('var', 'parm', 'binding') and \
+                    not by_ref:
+                # a by-value parameter the helper never assigns, bound to a variable the helper cannot see: a name for it
+                # (if the caller's variable changed while the helper runs the copy would matter; a helper cannot do that
+                # to a local of its caller except through a reference it was given)
+                unwritten = not _written_in(g, p['id'])
+            if an is not None and an.get('k') == 'DeclRefExpr' and an.get('dk') in ('var', 'parm', 'binding') and \
+                    (by_ref or unwritten):
                 alias[p['id']] = an
             elif opath is not None and opath.get('k') in ('MemberExpr', 'UnaryOperator'):
                 # a reference parameter bound to a member of an object: the parameter is that member
@@ -423,7 +441,112 @@ class Inliner:
             call.update({'k': 'NullStmt', 'inl': inl_of})
         call.update(keep)
         self.spliced[inl_of] = self.spliced.get(inl_of, 0) + 1
+        if has_val:
+            self._thread_returns(r, ret_id, cont, [str(b) for b in bmap.values()])
         return True
+
+    # a return of a constant followed, at the call site, by nothing but tests of the returned value: the return edge goes
+    # straight to the arm the tests select (otherwise every rule would have to correlate the result variable with the path
+    # that produced it)
+    def _thread_returns(self, r, ret_id, cont, callee_blocks):
+        elems = r['elems']
+        blocks = r['blocks']
+
+        def const_of(nid):
+            n = elems.get(str(nid)) if isinstance(nid, int) else nid
+            hops = 0
+            while n is not None and hops < 8:
+                if 'cv' in n and n.get('k') != 'DeclRefExpr':
+                    return int(n['cv'])
+                if n.get('k') == 'DeclRefExpr' and n.get('dk') == 'enum' and 'cv' in n:
+                    return int(n['cv'])
+                if n.get('k') in ('IntegerLiteral', 'CXXBoolLiteralExpr') and 'val' in n:
+                    try:
+                        return int(n['val'])
+                    except (TypeError, ValueError):
+                        return {'true': 1, 'false': 0}.get(str(n['val']))
+                if n.get('k') in ('ImplicitCastExpr', 'ParenExpr', 'ConstantExpr', 'CXXFunctionalCastExpr',
+                                  'CStyleCastExpr', 'CXXStaticCastExpr', 'MaterializeTemporaryExpr', 'InitListExpr',
+                                  'ExprWithCleanups') and len(n.get('ch', [])) == 1:
+                    c = n['ch'][0]
+                    n = elems.get(str(c)) if isinstance(c, int) else c
+                    hops += 1
+                    continue
+                return None
+            return None
+
+        def is_ret_ref(n):
+            n = _strip_raw(elems, n)
+            return n is not None and n.get('k') == 'DeclRefExpr' and n.get('id') == ret_id
+
+        def evaluate(nid, val):
+            """value of the pure test expression nid when the result variable holds val (None: not a pure test)"""
+            n = elems.get(str(nid)) if isinstance(nid, int) else nid
+            n = _strip_raw(elems, n)
+            if n is None:
+                return None
+            if is_ret_ref(n):
+                return val
+            k = n.get('k')
+            if k == 'UnaryOperator' and n.get('op') == '!':
+                v = evaluate(n['ch'][0], val)
+                return None if v is None else int(not v)
+            if k == 'BinaryOperator' and n.get('op') in ('==', '!='):
+                a, b = n['ch'][0], n['ch'][1]
+                va = evaluate(a, val)
+                vb = evaluate(b, val)
+                if va is None:
+                    va = const_of(a)
+                if vb is None:
+                    vb = const_of(b)
+                if va is None or vb is None:
+                    return None
+                return int((va == vb) == (n['op'] == '=='))
+            return None
+
+        def pure_test_block(bid):
+            blk = blocks.get(str(bid))
+            if blk is None or not blk.get('term') or 'cond' not in blk['term'] or len(blk.get('succ', [])) != 2:
+                return False
+            if blk['term'].get('k') not in ('IfStmt',):
+                return False
+            for e in blk.get('elems', []):
+                n = elems.get(str(e), {})
+                if n.get('k') in ('DeclRefExpr', 'ImplicitCastExpr', 'ParenExpr', 'ConstantExpr'):
+                    continue
+                if n.get('k') == 'UnaryOperator' and n.get('op') == '!':
+                    continue
+                if n.get('k') == 'BinaryOperator' and n.get('op') in ('==', '!='):
+                    continue
+                return False
+            return True
+
+        for b in callee_blocks:
+            blk = blocks.get(b)
+            if blk is None or blk.get('succ') != [int(cont)] or not blk.get('elems'):
+                continue
+            last = elems.get(str(blk['elems'][-1]), {})
+            if last.get('k') != 'DeclStmt' or not last.get('ret_of'):
+                continue
+            v = last['vars'][0]
+            if v.get('id') != ret_id or 'init' not in v:
+                continue
+            val = const_of(v['init'])
+            if val is None:
+                continue
+            tgt = int(cont)
+            for _ in range(12):
+                if not pure_test_block(tgt):
+                    break
+                res = evaluate(blocks[str(tgt)]['term']['cond'], val)
+                if res is None:
+                    break
+                nxt = blocks[str(tgt)]['succ'][0 if res else 1]
+                if nxt is None:
+                    break
+                tgt = nxt
+            if tgt != int(cont):
+                blk['succ'] = [tgt]
 
 
 def _written_in(g, var_id):
@@ -554,6 +677,8 @@ def desugar_bindings(functions_raw, known=None):
                 continue
             if not v.get('name'):
                 v['name'] = '__tuple_' + v['id'].lstrip('@').replace(':', '_').replace('.', '_')
+            if not (v.get('type') or '').startswith('const '):
+                v['type'] = 'const ' + (v.get('type') or '')     # the hidden object has no name: nobody re-assigns it
             tys = {}
             for x in elems.values():
                 for d in _all_dicts(x):
@@ -683,6 +808,110 @@ def lower_switches(functions_raw):
     return n_sw
 
 
+ALGS = {'std::all_of': ('inc', 'false', 'true'), 'std::any_of': ('true', 'inc', 'false'),
+        'std::none_of': ('false', 'inc', 'true'), 'std::for_each': None, 'std::find_if': ('found', 'inc', 'last')}
+
+
+def lower_algorithms(functions_raw):
+    """std::all_of / any_of / none_of / for_each(first, last, <lambda-expression>) -> a call of a synthetic helper that is
+    the loop the algorithm stands for (bounded like a range-for, the predicate called once per element in order, early exit
+    as specified); the helper is new code, so it is spliced into the caller like any other new helper, and the closure
+    after it."""
+    k = 0
+    new = {}
+    for fid, r in functions_raw.items():
+        elems = r.get('elems') or {}
+        for n in list(elems.values()):
+            for d in _all_dicts(n):
+                if d.get('k') != 'CallExpr' or d.get('cq') not in ALGS or len(d.get('args', [])) != 3:
+                    continue
+                if any(not isinstance(a, int) for a in d['args']):
+                    continue
+                x = elems.get(str(d['args'][2]))
+                hops = 0
+                while x is not None and x.get('k') != 'LambdaExpr' and hops < 6:
+                    c = (x.get('ch') or x.get('args') or [None])[0]
+                    x = elems.get(str(c)) if isinstance(c, int) else c
+                    hops += 1
+                if x is None or x.get('k') != 'LambdaExpr' or not x.get('lambda'):
+                    continue
+                lam = functions_raw.get(x['lambda'])
+                if lam is None or len(lam.get('params', [])) != 1:
+                    continue
+                it_ty = (elems.get(str(d['args'][0])) or {}).get('ty') or 'auto'
+                el_ty = (lam['params'][0].get('type') or 'auto').replace('const ', '').replace('&', '').strip()
+                k += 1
+                sfid = 'yakushima::__%s#%d' % (d['cq'].replace('std::', 'std_'), k)
+                new[sfid] = _alg_function(sfid, d['cq'], x['lambda'], it_ty, el_ty, d.get('loc'),
+                                          (elems.get(str(d['args'][2])) or {}).get('ty'))
+                d['callee'] = sfid
+                d['cq'] = sfid.split('#')[0]
+                d['lowered'] = 'algorithm'
+    functions_raw.update(new)
+    return k
+
+
+def _alg_function(fid, alg, lam_fid, it_ty, el_ty, loc, clos_ty):
+    loc = loc or ''
+    P = [{'id': 'first@' + fid, 'name': 'first', 'type': it_ty}, {'id': 'last@' + fid, 'name': 'last', 'type': it_ty},
+         {'id': 'pred@' + fid, 'name': 'pred', 'type': clos_ty or 'closure'}]
+    B, E = '__begin@' + fid, '__end@' + fid
+
+    def ref(i, name, dk, ty):
+        return {'k': 'DeclRefExpr', 'dk': dk, 'id': i, 'name': name, 'ty': ty, 'loc': loc}
+
+    def cast(c, ty):
+        return {'k': 'ImplicitCastExpr', 'ck': 'LValueToRValue', 'ch': [c], 'ty': ty, 'loc': loc}
+    el = {
+        1: ref(P[0]['id'], 'first', 'parm', it_ty),
+        2: {'k': 'DeclStmt', 'loc': loc, 'vars': [{'id': B, 'name': '__begin', 'type': it_ty, 'init': 1}]},
+        3: ref(P[1]['id'], 'last', 'parm', it_ty),
+        4: {'k': 'DeclStmt', 'loc': loc, 'vars': [{'id': E, 'name': '__end', 'type': it_ty + ' const', 'init': 3}]},
+        5: ref(B, '__begin', 'var', it_ty), 6: cast(5, it_ty), 7: ref(E, '__end', 'var', it_ty), 8: cast(7, it_ty),
+        9: {'k': 'BinaryOperator', 'op': '!=', 'ty': 'bool', 'ch': [6, 8], 'loc': loc},
+        10: ref(B, '__begin', 'var', it_ty), 11: cast(10, it_ty),
+        12: {'k': 'UnaryOperator', 'op': '*', 'postfix': False, 'ty': el_ty, 'ch': [11], 'loc': loc},
+        13: ref(P[2]['id'], 'pred', 'parm', clos_ty or 'closure'),
+        14: {'k': 'CXXOperatorCallExpr', 'callee': lam_fid, 'cn': 'operator()', 'cq': 'operator()', 'lambda_call': True,
+             'args': [13, 12], 'ch': [13, 12], 'ty': 'void' if alg == 'std::for_each' else 'bool', 'loc': loc},
+        15: ref(B, '__begin', 'var', it_ty),
+        16: {'k': 'UnaryOperator', 'op': '++', 'postfix': False, 'ty': it_ty, 'ch': [15], 'loc': loc},
+        17: {'k': 'CXXBoolLiteralExpr', 'val': '1', 'ty': 'bool', 'loc': loc},
+        18: {'k': 'ReturnStmt', 'ch': [17], 'loc': loc},
+        19: {'k': 'CXXBoolLiteralExpr', 'val': '0', 'ty': 'bool', 'loc': loc},
+        20: {'k': 'ReturnStmt', 'ch': [19], 'loc': loc},
+        21: {'k': 'ReturnStmt', 'ch': [], 'loc': loc},
+    }
+    # blocks: 8 entry, 7 set-up, 6 head, 5 body, 4 inc, 3 return true, 2 return false, 1 return (void), 0 exit
+    name = {'true': 3, 'false': 2, 'inc': 4, 'found': 3, 'last': 2}
+    if alg == 'std::find_if':
+        # the iterator of the first element the predicate accepts, else `last`
+        el[17] = ref(B, '__begin', 'var', it_ty)
+        el[19] = ref(P[1]['id'], 'last', 'parm', it_ty)
+    if ALGS[alg] is None:
+        body = {'elems': [10, 11, 12, 13, 14], 'succ': [4]}
+        exhausted = 1
+        ret = 'void'
+    else:
+        t, f_, ex = ALGS[alg]
+        body = {'elems': [10, 11, 12, 13, 14], 'succ': [name[t], name[f_]], 'term': {'k': 'IfStmt', 'cond': 14, 'loc': loc}}
+        exhausted = name[ex]
+        ret = it_ty if alg == 'std::find_if' else 'bool'
+    blocks = {
+        '8': {'elems': [], 'succ': [7]},
+        '7': {'elems': [1, 2, 3, 4], 'succ': [6]},
+        '6': {'elems': [5, 6, 7, 8, 9], 'succ': [5, exhausted], 'term': {'k': 'CXXForRangeStmt', 'cond': 9, 'loc': loc}},
+        '5': body,
+        '4': {'elems': [15, 16], 'succ': [6]},
+        '3': {'elems': [17, 18], 'succ': [0]},
+        '2': {'elems': [19, 20], 'succ': [0]},
+        '1': {'elems': [21], 'succ': [0]},
+        '0': {'elems': [], 'succ': []},
+    }
+    return {'qname': fid.split('#')[0], 'name': fid.split('::')[-1], 'params': P, 'loc': loc, 'ret': ret,
+            'elems': {str(i): n for i, n in el.items()}, 'blocks': blocks, 'entry': 8, 'exit': 0, 'synthetic': True}
+
+
 def apply(raw, lambdas=False):
     """Transform the raw fact base in place; returns the log."""
     if not os.path.exists(BASELINE):
@@ -691,6 +920,7 @@ def apply(raw, lambdas=False):
         base = json.load(fh)
     baseline = set(base['functions'])
     lower_switches(raw['functions'])
+    lower_algorithms(raw['functions'])
     inl = Inliner(raw['functions'], baseline)
     inl.splice_all(inl.new_named())
     desugar_bindings(raw['functions'], base.get('decompositions', {}))
